@@ -526,7 +526,7 @@ pub fn run(run: &Run) {
         run,
         Search { check: "session-setup", cases: run.tier.pick(3000, 120000), workers: 8, max_shrink_iters: 200 },
         case_strategy,
-        |c| judge(|| exec(c), false, "C02:hang"),
+        |c| judge(|| exec(c), true, "C02:hang"),
         |c| serde_json::to_value(c).unwrap(),
     );
     for l in ["variant:wt-wt", "variant:raw-server", "variant:raw-client", "decision:accept", "decision:accept-with-headers", "decision:forbidden", "decision:not-found", "decision:too-many-requests", "host:ipv4", "host:ipv6", "host:domain", "status:2xx", "status:non-2xx"] {
@@ -540,7 +540,7 @@ pub fn replay(run: &Run, doc: &Value) -> bool {
     };
     run.eval("session-setup", true, 1);
     for _ in 0..3 {
-        if let Outcome::Fail { signature, message } = judge(|| exec(&case), false, "C02:hang") {
+        if let Outcome::Fail { signature, message } = judge(|| exec(&case), true, "C02:hang") {
             run.fail("session-setup", &signature, &message, doc["case"].clone());
             break;
         }
